@@ -353,7 +353,7 @@ def _leaves(v):
     return sum(1 for i in range(len(v) + 1) if i not in v)
 
 
-BUDGET = dict(quick=240, thorough=1000)
+BUDGET = dict(quick=240, thorough=900)
 
 
 def harnesses(tier):
